@@ -354,6 +354,15 @@ def m_append(en, st, recv, a, kw):
     return [(en.mutate(recv, st, V.List(snoc(V.items(cur), t))), V.None_)]
 
 
+def m_insert(en, st, recv, a, kw):
+    i = z3.simplify(en.read(a[0], st))
+    if not (z3.is_app(i) and i.decl().name() == 'Int' and z3.is_int_value(i.arg(0)) and i.arg(0).as_long() == 0):
+        raise SX.OutOfSubset("list.insert at a position other than 0")
+    t, st = en.term(a[1], st)
+    cur = en.read(recv, st)
+    return [(en.mutate(recv, st.assume(V.is_List(cur)), V.List(VL.cons(t, V.items(cur)))), V.None_)]
+
+
 def m_extend(en, st, recv, a, kw):
     t = en.read(a[0], st)
     cur = en.read(recv, st)
@@ -540,6 +549,6 @@ def m_intersection(en, st, recv, a, kw):
     return [(st.assume(V.is_Set(x)), V.Set(set_inter(V.sitems(x), z3.If(V.is_Set(y), V.sitems(y), V.items(y)))))]
 
 
-METHODS = {'intersection': m_intersection, 'bit_length': m_bit_length, 'popitem': m_popitem, 'decode': m_decode, 'append': m_append, 'extend': m_extend, 'get': m_get, 'items': m_items, 'keys': m_keys, 'values': m_values, 'add': m_add,
+METHODS = {'intersection': m_intersection, 'bit_length': m_bit_length, 'popitem': m_popitem, 'decode': m_decode, 'append': m_append, 'insert': m_insert, 'extend': m_extend, 'get': m_get, 'items': m_items, 'keys': m_keys, 'values': m_values, 'add': m_add,
            'startswith': m_startswith, 'join': m_join, 'format': m_format, 'lower': m_lower, 'pop': m_pop, 'setdefault': m_setdefault,
            'update': m_update, 'copy': m_copy, 'split': m_split, 'strip': m_strip, 'encode': m_encode, 'index': m_index}
